@@ -283,7 +283,7 @@ pub fn sim_opt(reg: &Snapshot, roots: &[(MetaType, u32)], bijection: bool) -> Re
 pub fn run_history(case: &HCase) -> Result<Trace, String> {
     let spec = Arc::new(case.spec.clone());
     install(spec.clone());
-    let mut reg = Registry::new();
+    let mut reg = if case.ops.len() % 2 == 1 { Registry::default() } else { Registry::new() };
     let mut tr = Trace { roots: vec![], meta_roots: vec![], snapshots: vec![], calls: [0; NN], final_reg: PortableRegistry { types: vec![] } };
     for op in &case.ops {
         let mut roots: Vec<(Ty, u32)> = vec![];
@@ -525,7 +525,7 @@ pub fn c01_hist_body(case: &HCase, obs: &mut Obs) -> Result<(), String> {
 /// C01(b): builder histories under the documented discipline (references only to ids already
 /// handed out or to the announced next_type_id)
 pub fn c01_builder_body(ops: &Vec<(MType, bool)>, obs: &mut Obs) -> Result<(), String> {
-    let mut b = scale_info::PortableRegistryBuilder::new();
+    let mut b = if ops.len() % 2 == 1 { scale_info::PortableRegistryBuilder::default() } else { scale_info::PortableRegistryBuilder::new() };
     for (t, finish_now) in ops {
         let next = b.next_type_id();
         let t = t.map_refs(&mut |r| r % (next + 1));
